@@ -1,4 +1,5 @@
 import PhyVerif.Model.C18
+import PhyVerif.Model.C18b
 import PhyVerif.Spec.C18
 /-! Helper lemmas and full proofs for C18. Statements: `Props/C18.lean`. -/
 namespace PhyVerif.C18.Lemmas
@@ -149,10 +150,25 @@ theorem mem_header (rows : List (List (String × Cell))) (first : Option String)
   rw [(header_perm rows first).mem_iff, List.mem_eraseDups, List.mem_flatMap]
   exact ⟨r, hr, List.mem_map.mpr ⟨fc, hfc, rfl⟩⟩
 
-/-- one line written then read back -/
-theorem line_roundtrip (render : Cell → String) (parse : String → Cell)
-    (hrt : ∀ c, parse (render c) = c) (hne : ∀ c, render c ≠ "")
-    (r : List (String × Cell)) (fields : List String) :
+theorem mem_of_lookup_eq_some {f : String} {c : Cell} :
+    ∀ {r : List (String × Cell)}, r.lookup f = some c → (f, c) ∈ r
+  | [], h => by simp at h
+  | (k, v) :: t, h => by
+    rw [List.lookup_cons] at h
+    by_cases hk : (f == k) = true
+    · rw [hk] at h
+      have hfk : f = k := by simpa using hk
+      have hv : v = c := Option.some.inj h
+      subst hfk; subst hv
+      exact List.mem_cons_self
+    · have hk' : (f == k) = false := by simpa using hk
+      rw [hk'] at h
+      exact List.mem_cons_of_mem _ (mem_of_lookup_eq_some h)
+
+/-- one line written then read back (cells of the row in the domain `D`) -/
+theorem line_roundtrip_on (D : Cell → Prop) (render : Cell → String) (parse : String → Cell)
+    (hrt : ∀ c, D c → parse (render c) = c) (hne : ∀ c, D c → render c ≠ "")
+    (r : List (String × Cell)) (hD : ∀ fc ∈ r, D fc.2) (fields : List String) :
     (((fields.zip (fields.map fun f =>
         match r.lookup f with
         | some c => render c
@@ -164,15 +180,18 @@ theorem line_roundtrip (render : Cell → String) (parse : String → Cell)
     simp only [List.map_cons, List.zip_cons_cons, List.filterMap_cons]
     cases hl : r.lookup f with
     | none => simpa [List.filter_cons] using ih
-    | some c => simpa [List.filter_cons, hne c, hrt c] using ih
+    | some c =>
+      have hc : D c := hD (f, c) (mem_of_lookup_eq_some hl)
+      simpa [List.filter_cons, hne c hc, hrt c hc] using ih
 
 /- `hnodup` is not needed by the proof: `expectedRows` and `writeTsv` both use `List.lookup`
 (first occurrence of a field), so duplicate field names inside a row are handled consistently. -/
 set_option linter.unusedVariables false in
-theorem tsv_roundtrip (render : Cell → String) (parse : String → Cell)
-    (hrt : ∀ c, parse (render c) = c) (hne : ∀ c, render c ≠ "")
+theorem tsv_roundtrip_on (D : Cell → Prop) (render : Cell → String) (parse : String → Cell)
+    (hrt : ∀ c, D c → parse (render c) = c) (hne : ∀ c, D c → render c ≠ "")
     (rows : List (List (String × Cell))) (first : Option String)
-    (hnodup : ∀ r ∈ rows, (r.map (·.1)).Nodup) (file : List String × List (List String))
+    (hnodup : ∀ r ∈ rows, (r.map (·.1)).Nodup) (hD : ∀ r ∈ rows, ∀ fc ∈ r, D fc.2)
+    (file : List String × List (List String))
     (hw : writeTsv render rows first = some file) :
     readTsv parse file = expectedRows file.1 rows ∧
     (∀ r ∈ rows, ∀ fc ∈ r, fc.1 ∈ file.1) ∧ file.1.Nodup := by
@@ -184,8 +203,19 @@ theorem tsv_roundtrip (render : Cell → String) (parse : String → Cell)
     refine ⟨?_, fun r hr fc hfc => mem_header rows first r hr fc hfc, header_nodup rows first⟩
     simp only [readTsv, expectedRows, List.map_map]
     apply List.map_congr_left
-    intro r _
-    exact line_roundtrip render parse hrt hne r _
+    intro r hr
+    exact line_roundtrip_on D render parse hrt hne r (hD r hr) _
+
+/-- the unrestricted form: the domain is every cell -/
+theorem tsv_roundtrip (render : Cell → String) (parse : String → Cell)
+    (hrt : ∀ c, parse (render c) = c) (hne : ∀ c, render c ≠ "")
+    (rows : List (List (String × Cell))) (first : Option String)
+    (hnodup : ∀ r ∈ rows, (r.map (·.1)).Nodup) (file : List String × List (List String))
+    (hw : writeTsv render rows first = some file) :
+    readTsv parse file = expectedRows file.1 rows ∧
+    (∀ r ∈ rows, ∀ fc ∈ r, fc.1 ∈ file.1) ∧ file.1.Nodup :=
+  tsv_roundtrip_on (fun _ => True) render parse (fun c _ => hrt c) (fun c _ => hne c)
+    rows first hnodup (fun _ _ _ _ => trivial) file hw
 
 theorem tsv_first_field_first (render : Cell → String) (rows : List (List (String × Cell))) (f : String)
     (hf : ∃ r ∈ rows, f ∈ r.map (·.1)) (file : List String × List (List String))
@@ -278,5 +308,52 @@ theorem intStrOK : IntStrOK := by
     rw [h1, h2, hall, hp]
     refine ⟨rfl, ?_⟩
     omega
+
+/-! ### The concrete `str` / `_try_make_number` instance on integers and alphabetic labels -/
+
+/-- a letter is neither '-' nor a digit -/
+theorem not_isDigit_of_isAlpha {c : Char} (h : c.isAlpha = true) : c.isDigit = false ∧ c ≠ '-' := by
+  simp only [Char.isAlpha, Char.isUpper, Char.isLower, Char.isDigit, Bool.or_eq_true,
+    Bool.and_eq_true, decide_eq_true_eq] at h ⊢
+  refine ⟨?_, ?_⟩
+  · rcases h with h | h <;> simp [UInt32.le_iff_toNat_le] at h ⊢ <;> omega
+  · intro hc; subst hc; revert h; decide
+
+/-- a non-empty alphabetic string is not the decimal form of an integer -/
+theorem isIntString_alpha {s : String} (hne : s ≠ "") (hal : s.toList.all Char.isAlpha = true) :
+    isIntString s = false := by
+  cases hs : s.toList with
+  | nil => exact absurd (String.toList_eq_nil_iff.mp hs) hne
+  | cons c cs =>
+    rw [hs] at hal
+    have hc : c.isAlpha = true := by simp at hal; exact hal.1
+    obtain ⟨hd, hm⟩ := not_isDigit_of_isAlpha hc
+    rw [(isIntString_of_nonneg hs hm).1]
+    simp [hd]
+
+theorem renderPy_ne (c : Cell) (hc : CellPy c) : renderPy c ≠ "" := by
+  cases c with
+  | int i =>
+    intro h
+    have := (intStrOK i).1
+    simp only [renderPy] at h
+    rw [h] at this
+    revert this; decide
+  | text s => exact hc.1
+  | float _ => exact absurd hc (by simp [CellPy])
+
+theorem parsePy_renderPy (c : Cell) (hc : CellPy c) : parsePy (renderPy c) = c := by
+  cases c with
+  | int i => simp [renderPy, parsePy, (intStrOK i).1, (intStrOK i).2]
+  | text s => simp [renderPy, parsePy, isIntString_alpha hc.1 hc.2]
+  | float _ => exact absurd hc (by simp [CellPy])
+
+theorem tsv_roundtrip_py (rows : List (List (String × Cell))) (first : Option String)
+    (hnodup : ∀ r ∈ rows, (r.map (·.1)).Nodup) (hD : ∀ r ∈ rows, ∀ fc ∈ r, CellPy fc.2)
+    (file : List String × List (List String))
+    (hw : writeTsv renderPy rows first = some file) :
+    readTsv parsePy file = expectedRows file.1 rows ∧
+    (∀ r ∈ rows, ∀ fc ∈ r, fc.1 ∈ file.1) ∧ file.1.Nodup :=
+  tsv_roundtrip_on CellPy renderPy parsePy parsePy_renderPy renderPy_ne rows first hnodup hD file hw
 
 end PhyVerif.C18.Lemmas
